@@ -139,7 +139,11 @@ func generateDecoder(api frontend.API, sequential bool, n int, sel frontend.Vari
 	if sequential {
 		indicators, err = api.Compiler().NewHint(muxIndicators, n, sel)
 	} else {
-		indicators, err = api.Compiler().NewHint(mapIndicators, len(keys), append(keys, sel)...)
+		// copy: appending to keys could write into the caller's backing array
+		hintInputs := make([]frontend.Variable, 0, len(keys)+1)
+		hintInputs = append(hintInputs, keys...)
+		hintInputs = append(hintInputs, sel)
+		indicators, err = api.Compiler().NewHint(mapIndicators, len(keys), hintInputs...)
 	}
 	if err != nil {
 		panic(fmt.Sprintf("error in calling Mux/Map hint: %v", err))
